@@ -4,6 +4,7 @@ instances on which the driver evaluates `Schema.wf` on every run).
 -/
 import TdModel.Lemmas.C21
 import TdModel.Lemmas.C21Dec
+import TdModel.Lemmas.C21Flags
 
 namespace TdModel.C21
 open TdModel TdModel.Bin
@@ -38,6 +39,12 @@ theorem tl_decode_reencode_stable (S : Schema) (hwf : S.wf = true) (fuel : Nat) 
     ∃ e, encTy S t v = some e ∧ ∀ rest', decTy S v.size t (e ++ rest') = .ok (v, rest') := by
   obtain ⟨_, e, he⟩ := tl_decoded_is_value S fuel t b v rest h
   exact ⟨e, he, fun rest' => tl_roundtrip S hwf t v e rest' v.size he (Nat.le_refl _)⟩
+
+/-- Flag bits are derived from field presence: bit `bit` of the mask that `SetFlags` ORs into
+flags word `k` is set iff some conditional field reading that bit holds a non-zero value. -/
+theorem setflags_bits_iff_presence (S : Schema) (k bit : Nat) (fs : List Field) (vs : Vals) :
+    (presenceBits S k fs vs).testBit bit = true ↔ HasPresent S k bit fs vs :=
+  presenceBits_iff S k bit fs vs
 
 /-- The model's decoder has exactly two outcomes (a value or an error class); there is no
 panic outcome for any bytes, any type, any schema (also ill-formed ones). -/
